@@ -82,6 +82,11 @@ def decompose(rng, prog):
     main.append("cExtraUnused = glyphid(2);")
     main.append("#endif")
     main.append("endtable;")
+    if getattr(prog, "c18_override", False):
+        # two assignments of one glyph attribute to one glyph through two classes: the earlier one far down in the main file,
+        # the later one on the second line of a file included after it (the later statement wins, wherever it is written)
+        main.append("table(glyph) cOvA {ovattr = 111}; endtable;")
+        main.append('#include "late.gdh"')
     main.append("#define RULE2(a, b) a \\")
     main.append("   b")
     main.append("table(sub)")
@@ -103,6 +108,8 @@ def decompose(rng, prog):
         main.append("endpass;")
     main.append("endtable;")
     files = {"p.gdl": main}
+    if getattr(prog, "c18_override", False):
+        files["late.gdh"] = ["// an override, written in a file of its own", "table(glyph) cOvB {ovattr = 222}; endtable;"]
     if use_inc:
         files[incname] = inc
     if nested:
@@ -140,8 +147,15 @@ def run(tier, seed, replay=None):
         os.makedirs(d)
         open(os.path.join(d, "in.ttf"), "wb").write(prog.font)
         shutil.copy(common.STDDEF, d)
+        if i % 2 == 1:
+            prog.c18_override = True
+            for nm, df in (("cOvA", "glyphid(2, 3)"), ("cOvB", "glyphid(3, 4)")):
+                prog.class_order.append(nm)
+                prog.class_defs[nm] = df
+                prog.classes[nm] = [2, 3] if nm == "cOvA" else [3, 4]
         # flat spelling (with the extra unused class so that both programs denote the same thing)
-        ft = prog.gdl().replace("endtable;", "cExtraUnused = glyphid(2);\nendtable;", 1)
+        ft = prog.gdl().replace("endtable;", "cExtraUnused = glyphid(2);\nendtable;" + (
+            "\ntable(glyph) cOvA {ovattr = 111}; endtable;\ntable(glyph) cOvB {ovattr = 222}; endtable;" if getattr(prog, "c18_override", False) else ""), 1)
         open(os.path.join(d, "flat.gdl"), "w").write(ft)
         files, pos = decompose(crng, prog)
         write_files(d, files)
